@@ -160,6 +160,32 @@ func binaryAtoms() []rawAtom {
 	add("timestamp-minute-60", 0x67, 0x80, 0x0F, 0xD0, 0x81, 0x81, 0x80, 0xBC)
 	add("timestamp-second-60", 0x68, 0x80, 0x0F, 0xD0, 0x81, 0x81, 0x80, 0x80, 0xBC)
 	add("timestamp-hour-without-minute", 0x66, 0x80, 0x0F, 0xD0, 0x81, 0x81, 0x8C)
+	// fractional seconds outside [0, 1): exactly 1, above 1, negative (2000-01-01T00:00:00 + fraction)
+	for _, fr := range [][]byte{{0x80, 0x01}, {0xC1, 0x0A}, {0xC3, 0x03, 0xE8}, {0xC9, 0x3B, 0x9A, 0xCA, 0x00}, {0x80, 0x02}, {0xC1, 0x0F}, {0xC1, 0x0B}, {0x85, 0x01},
+		{0xCA, 0x81}, {0xC1, 0x81}, {0x80, 0x81}, {0xC9, 0x81}, {0xD4, 0x81}} {
+		ts := append([]byte{0x80, 0x0F, 0xD0, 0x81, 0x81, 0x80, 0x80, 0x80}, fr...)
+		out = append(out, rawAtom{"timestamp-fraction-out-of-range", append([]byte{0x60 | byte(len(ts))}, ts...)})
+	}
+	// calendar fields written as long VarUInts whose low bits alone would be a valid value
+	// (65536*n + v, 2^32 + v, 2^35 + v)
+	for _, hi := range [][]byte{{0x04, 0x00}, {0x10, 0x00, 0x00, 0x00}, {0x01, 0x00, 0x00, 0x00, 0x00}} {
+		big := func(low byte) []byte { return append(append([]byte{}, hi...), 0x80|low) } // hi bits + 7 low bits
+		for fi, ts := range [][]byte{
+			append(append([]byte{0xC0}, big(0x50)...)),                                                              // year
+			append(append([]byte{0xC0, 0x0F, 0xD0}, big(1)...), 0x8F),                                              // month
+			append(append([]byte{0xC0, 0x0F, 0xD0, 0x81}, big(15)...)),                                             // day
+			append(append(append([]byte{0x80, 0x0F, 0xD0, 0x81, 0x81}, big(12)...), 0x9E)),                          // hour
+			append(append([]byte{0x80, 0x0F, 0xD0, 0x81, 0x81, 0x8C}, big(30)...)),                                 // minute
+			append(append([]byte{0x80, 0x0F, 0xD0, 0x81, 0x81, 0x8C, 0x9E}, big(30)...)),                           // second
+		} {
+			_ = fi
+			hdr := []byte{0x60 | byte(len(ts))}
+			if len(ts) >= 14 {
+				hdr = []byte{0x6E, 0x80 | byte(len(ts))}
+			}
+			out = append(out, rawAtom{"timestamp-field-too-large", append(hdr, ts...)})
+		}
+	}
 	add("timestamp-empty", 0x60)
 	add("timestamp-no-year", 0x61, 0x80)
 	add("string-not-utf8", 0x82, 0xC3, 0x28)
@@ -238,7 +264,9 @@ func textAtoms() []rawAtom {
 	add("bad-base64", "{{abc}}")
 	add("bad-base64", "{{a b c d =}}")
 	add("clob-non-ascii", "{{\"é\"}}")
-	add("clob-unicode-escape", `{{"A"}}`)
+	for _, s := range []string{"{{\"\\u0041\"}}", "{{\"a\\U00000041\"}}", "{{'''x\\u000Ay'''}}", "{{'''first''' '''sec\\U000000FFond'''}}", "{{\"\\u00e9\"}}", "{{\"\\u0100\"}}", "{{'''\\U0001F600'''}}"} {
+		add("clob-unicode-escape", s)
+	}
 	add("clob-two-short-strings", `{{"a" "b"}}`)
 	add("clob-comment-inside", `{{ /*c*/ "a" }}`)
 	add("lob-unbalanced-close", "{{abcd}")
